@@ -67,11 +67,22 @@ let parse_op (pk : string -> 'k) (toks : string list) : 'k op =
   | ["bwd"; x] -> OIterBack (n x)
   | _ -> failwith ("bad op: " ^ String.concat " " toks)
 
+(* An operation written with a leading '.' ("muted": ".app 0 5 1") is the same step of the same machine; its line
+   shows the result and, of the state, only the sizes (the harness does the same).  Long histories that build tables
+   of hundreds or thousands of entries are compared in full at their unmuted operations. *)
+let unmute (toks : string list) : bool * string list = match toks with
+  | o :: rest when String.length o > 1 && o.[0] = '.' -> (true, String.sub o 1 (String.length o - 1) :: rest)
+  | _ -> (false, toks)
+
 let model_runner pk show keqb hash kd caps : runner =
   let st = ref (init (List.map ctor_cap caps)) in
   { step_line = (fun toks ->
+      let (muted, toks) = unmute toks in
       let (st', r) = step keqb hash kd !st (parse_op pk toks) in
       st := st';
+      if muted then
+        emit (Printf.sprintf "%s | %s | ." (str_res show r) (String.concat " " (List.map (fun t -> dec_of_z t.size) st')))
+      else
       emit (Printf.sprintf "%s | %s | %s" (str_res show r)
               (String.concat " " (List.mapi (fun i t -> str_obs show i (m_obs t)) st'))
               (String.concat " " (List.mapi (fun i t -> str_int show i t) st')))) }
@@ -79,8 +90,12 @@ let model_runner pk show keqb hash kd caps : runner =
 let spec_runner pk show keqb kd caps : runner =
   let st = ref (List.map (fun _ -> []) caps) in
   { step_line = (fun toks ->
+      let (muted, toks) = unmute toks in
       let (st', r) = spec_step keqb kd !st (parse_op pk toks) in
       st := st';
+      if muted then
+        emit (Printf.sprintf "%s | %s" (str_res show r) (String.concat " " (List.map (fun l -> string_of_int (List.length l)) st')))
+      else
       emit (Printf.sprintf "%s | %s" (str_res show r)
               (String.concat " " (List.mapi (fun i l -> str_obs show i (s_obs l)) st')))) }
 
